@@ -428,6 +428,46 @@ func genFR(w *bufio.Writer, thorough bool, r *Rng) {
 		k = 60
 	}
 	reuseLines(w, r, k)
+	// random call sequences over the whole Reader alphabet, on valid and damaged frames
+	ln := 300
+	if thorough {
+		ln = 4000
+	}
+	var pool []string
+	for _, bf := range someFrames(r, 12, false) {
+		pool = append(pool, bf.ref)
+		if len(bf.frame) > 12 { // a damaged and a truncated version
+			bad := append([]byte{}, bf.frame...)
+			bad[7+r.Intn(len(bad)-7)] ^= byte(1 << uint(r.Intn(8)))
+			pool = append(pool, saveBlob("lifebad", bad), saveBlob("lifecut", bf.frame[:r.Intn(len(bf.frame))]))
+		}
+	}
+	pool = append(pool, "x", "x04224d18", "x00000000")
+	for i := 0; i < ln; i++ {
+		k := 1 + r.Intn(7)
+		var ops []string
+		for j := 0; j < k; j++ {
+			switch r.Intn(12) {
+			case 0, 1, 2:
+				ops = append(ops, fmt.Sprintf("r:%d", r.Pick([]int{0, 1, 7, 100, 4096, 70000, 1 << 20})))
+			case 3, 4:
+				ops = append(ops, "wt:-1")
+			case 5:
+				ops = append(ops, fmt.Sprintf("wt:%d", r.Intn(3)))
+			case 6:
+				ops = append(ops, "s")
+			case 7, 8:
+				ops = append(ops, "R:"+pool[r.Intn(len(pool))])
+			case 9:
+				ops = append(ops, fmt.Sprintf("A:conc=%d", r.Pick([]int{1, 2, 4})))
+			case 10:
+				ops = append(ops, "A:"+[]string{"bs=65536", "conc=2,bc=1", "lvl=512", "cc=1,conc=2", "sz=5", "leg=1"}[r.Intn(6)])
+			default:
+				ops = append(ops, "r:100000", "r:100000")
+			}
+		}
+		fmt.Fprintf(w, "R %d %s %d -1 %d %s\n", r.Pick([]int{1, 1, 2, 4}), pool[r.Intn(len(pool))], r.Pick([]int{0, 0, 3}), r.Intn(2), strings.Join(ops, " "))
+	}
 }
 
 // magicWords: first words at and around the three magics: every one-bit change of each of them,
